@@ -36,6 +36,19 @@ def universe(tier, seed):
 
 
 # -------------------------------------------------------------------------------------------------
+NAN_TOKEN = "NaN"  # how a raw float NaN is written in a (JSON) history
+_NAN = float("nan")
+
+
+def dec(v):
+    """history value -> Python value (one single NaN object per process, as identity matters for list/dict lookups)"""
+    if isinstance(v, str) and v == NAN_TOKEN:
+        return _NAN
+    if isinstance(v, list):
+        return [dec(x) for x in v]
+    return v
+
+
 def GL():
     from AutoCarver.discretizers import GroupedList
 
@@ -87,7 +100,40 @@ def init_events(U, tier):
     return evs
 
 
+def enc(v):
+    return NAN_TOKEN if isinstance(v, float) and v != v else v
+
+
+def enabled_nan(ref: RefGroupedList, U):
+    """alphabet of the NaN exploration: the operations the library itself applies to orders that may hold a raw
+    missing value (group / group_list / append / remove / pop / copy constructor)"""
+    L = [enc(v) for v in ref.leaders()]
+    V = [norm(v) for v in ref.values()]
+    for d in L:
+        for k in L:
+            yield ["group", d, k]
+    if 2 <= len(L) <= 3:
+        for k in L:
+            others = [d for d in L if d != k]
+            for ds in itertools.permutations(others, 2):
+                yield ["group_list", list(ds), k]
+            for o in others:
+                yield ["group_list", [k, o], k]
+                yield ["group_list", [o, k], k]
+    for v in U:
+        if norm(dec(v)) not in V:
+            yield ["append", v]
+    for k in L:
+        yield ["remove", k]
+    for i in range(len(L)):
+        yield ["pop", i]
+    yield ["copy"]
+
+
 def enabled(ref: RefGroupedList, U, tier):
+    if NAN_TOKEN in U:
+        yield from enabled_nan(ref, U)
+        return
     L = ref.leaders()
     V = ref.values()
     newv = [v for v in U if not any(v == x for x in V)]
@@ -128,6 +174,7 @@ def enabled(ref: RefGroupedList, U, tier):
 
 
 def apply_ref(ref: RefGroupedList, ev):
+    ev = dec(ev)
     r = ref.copy()
     op = ev[0]
     if op == "group":
@@ -157,6 +204,7 @@ def apply_ref(ref: RefGroupedList, ev):
 
 def apply_real(gl, ev):
     """applies in place; returns the resulting object (sort / sort_by / copy return new objects)"""
+    ev = dec(ev)
     op = ev[0]
     if op == "sort":
         return gl.sort()
@@ -176,7 +224,7 @@ def apply_real(gl, ev):
 
 def build(hist):
     """replays a history on a fresh real object and on the reference model"""
-    ev0 = hist[0]
+    ev0 = dec(hist[0])
     if ev0[0] == "init_list":
         gl = GL()(list(ev0[1]))
         ref = RefGroupedList.from_list(ev0[1])
@@ -204,7 +252,7 @@ def check(gl, ref: RefGroupedList, U):
     if len(set(map(norm, allv))) != len(allv):
         errs.append(f"groups not disjoint: {gl.content!r}")
     for k, m in gl.content.items():
-        if not any(k == e for e in m):
+        if not any(norm(k) == norm(e) for e in m):
             errs.append(f"leader {k!r} not in its own group {m!r}")
     rc = {norm(k): nsorted(m) for k, m in ref.g}
     for k, m in gl.content.items():
@@ -214,14 +262,15 @@ def check(gl, ref: RefGroupedList, U):
         errs.append(f"values() {gl.values()!r} != model {ref.values()!r}")
     if nsorted(gl.values()) != nsorted(allv):
         errs.append("values() disagrees with content")
-    for v in list(U) + [float("nan"), "__never__"]:
+    probes = [dec(v) for v in U] + ([] if NAN_TOKEN in U else [float("nan")]) + ["__never__"]
+    for v in probes:
         found, k = ref.group_of(v)
         got = gl.get_group(v)
         if norm(got) != norm(k):
             errs.append(f"get_group({v!r})={got!r} != model {k!r}")
         if bool(gl.contains(v)) != found:
             errs.append(f"contains({v!r})={gl.contains(v)!r} != model {found}")
-        if nsorted(gl.get(v)) != nsorted(ref.get(v)):
+        if not (isinstance(v, float) and v != v) and nsorted(gl.get(v)) != nsorted(ref.get(v)):
             errs.append(f"get({v!r})={gl.get(v)!r} != model {ref.get(v)!r}")
     return errs
 
@@ -288,97 +337,104 @@ def replay(case):
     return {"outcome": "violation" if viol else "ok", "violations": viol}
 
 
-def run(tier, seed, rep):
+def explore(U, tier, depth, inits, rep, tag):
+    """level-synchronous BFS from the given initial events; returns the dict canonical state -> history"""
     global _U, _TIER
-    U = universe(tier, seed)
     _U, _TIER = U, tier
-    depth = 3 if tier == "quick" else 4
-    rep.rule = (
-        f"level-synchronous BFS over GroupedList call histories, universe U={U!r}, initial states = every list "
-        f"constructor over <=3 distinct elements of U and the dict constructors over <=2 (quick) / <=3 keys, depth {depth}; "
-        "alphabet: group, group_list, append, update, remove, pop, sort, sort_by, replace_group_leader, copy with every valid "
-        "argument tuple; each transition executed on a deep copy and on a copy-constructed object and on RefGroupedList; "
-        "a state is non-trivial when some group has >= 2 members (counted on distinct canonical states)"
-    )
-    rep.assumptions = [
-        "values are compared by ==; the Python type of a leader (int vs numpy.float64 after sort()) is not observed",
-        "raw numpy.nan is used only as a lookup probe, never stored (the library stores the str_nan sentinel)",
-        "member order inside a group is not part of the property",
-    ]
     seen = {}
+    per_depth = []
+    results = list(pmap(expand_or_init, [[ev] for ev in inits]))
     frontier = []
-    for ev in init_events(U, tier):
+    n0 = 0
+    for ev, res in zip(inits, results):
+        if "__harness_error__" in res or "canon" not in res:
+            rep.record({"U": U, "tier": tier, "hist": [ev]}, res)
+            continue
+        c = res["canon"]
+        if c in seen:
+            continue
+        seen[c] = [ev]
+        n0 += 1
+        if res["nontrivial"]:
+            rep.nontrivial.add(tag + repr(c))
+        if res["violations"]:
+            for v in res["violations"]:
+                rep.violation({"U": U, "tier": tier, "hist": v["hist"]}, v)
+            continue
         frontier.append([ev])
-    # dedupe initial states by canonical form
-    level = 0
-    rep.extra["per_depth"] = []
-    first = True
-    while frontier and level <= depth:
-        results = list(pmap(expand_or_init if first else expand, frontier))
-        new_frontier = []
-        level_states = 0
+    rep.transitions += len(inits)
+    per_depth.append({"depth": 0, "new_states": n0})
+    for level in range(1, depth + 1):
+        if not frontier:
+            break
+        results = list(pmap(expand, frontier))
+        nxt = []
+        n_new = 0
         for hist, res in zip(frontier, results):
-            if "__harness_error__" in res:
-                rep.record({"hist": hist}, res)
-            if first:
-                c = res["canon"]
-                if c in seen:
-                    continue
-                seen[c] = hist
-                level_states += 1
-                if res["nontrivial"]:
-                    rep.nontrivial.add(repr(c))
-                if res["violations"]:
-                    for v in res["violations"]:
-                        rep.violation({"U": U, "tier": tier, "hist": v["hist"]}, v)
-                    continue
-                new_frontier.append(hist)
+            if "__harness_error__" in res or "succ" not in res:
+                rep.record({"U": U, "tier": tier, "hist": hist}, res)
                 continue
             rep.transitions += res["transitions"]
             rep.validated += res["transitions"]
             for o in res["outcomes"]:
-                rep.outcomes[o] += 1
+                rep.outcomes[tag + o] += 1
             for v in res["violations"]:
                 rep.violation({"U": U, "tier": tier, "hist": v["hist"]}, v)
             for c, ev, nontriv in res["succ"]:
                 if c in seen:
                     continue
                 seen[c] = hist + [ev]
-                level_states += 1
+                n_new += 1
                 if nontriv:
-                    rep.nontrivial.add(repr(c))
-                new_frontier.append(hist + [ev])
-        if first:
-            rep.transitions += len(frontier)
-            first = False
-            rep.extra["per_depth"].append({"depth": 0, "new_states": level_states})
-            frontier = new_frontier
-            continue
-        level += 1
-        rep.extra["per_depth"].append({"depth": level, "new_states": level_states})
-        frontier = new_frontier if level < depth else []
-        if level >= depth:
-            # states discovered at the last level are checked (by the transition into them) but not expanded
-            break
-    rep.states = len(seen)
+                    rep.nontrivial.add(tag + repr(c))
+                nxt.append(hist + [ev])
+        per_depth.append({"depth": level, "new_states": n_new})
+        frontier = nxt  # states found at the last level are checked by the transition into them, not expanded
+    rep.extra.setdefault("per_depth", {})[tag or "main"] = per_depth
+    return seen
+
+
+def run(tier, seed, rep):
+    U = universe(tier, seed)
+    depth = 3 if tier == "quick" else 4
+    rep.rule = (
+        f"level-synchronous BFS over GroupedList call histories, universe U={U!r}, initial states = every list "
+        f"constructor over <=2 (quick) / <=3 distinct elements of U and the dict constructors over <=2 / <=3 keys, depth {depth}; "
+        "alphabet: group, group_list, append, update, remove, pop, sort, sort_by, replace_group_leader, copy with every valid "
+        "argument tuple; each transition executed on a raw clone and on a copy-constructed object and on RefGroupedList; "
+        "second exploration with a raw float NaN stored in the list (universe [str, number, NaN], alphabet group, group_list, "
+        "append, remove, pop, copy -- the operations the library applies to such orders), depth 3/4; "
+        "a state is non-trivial when some group has >= 2 members (counted on distinct canonical states)"
+    )
+    rep.assumptions = [
+        "values are compared by == (NaN equal to NaN); the Python type of a leader (int vs numpy.float64 after sort()) is not observed",
+        "a raw float NaN is explored only with group / group_list / append / remove / pop / copy (the dict constructor, sort and sort_by are documented for str_nan sentinels)",
+        "member order inside a group is not part of the property",
+    ]
+    seen = explore(U, tier, depth, init_events(U, tier), rep, "")
+    names, nums = NAMES[seed % len(NAMES)], NUMS[seed % len(NUMS)]
+    U2 = [names[0], nums[0], NAN_TOKEN, "__NAN__"]
+    inits2 = [["init_list", list(t)] for n in range(0, 4) for t in itertools.permutations(U2, n)]
+    seen2 = explore(U2, tier, depth, inits2, rep, "nan:")
+    rep.states = len(seen) + len(seen2)
     rep.evaluations = rep.transitions
-    # self-test: deepcopy+op == replay of the whole history from scratch, on a deterministic subsample
+    # self-test: replaying a whole history from scratch is deterministic, on a deterministic subsample
+    global _U, _TIER
+    _U, _TIER = U, tier
     hists = list(seen.values())
     step = max(1, len(hists) // 400)
-    bad = 0
     for h in hists[::step]:
         g1, _ = build(h)
         g2, _ = build(h)
         if canon_real(g1) != canon_real(g2):
-            bad += 1
+            raise RuntimeError("history replay is not deterministic")
     rep.extra["replay_determinism_samples"] = len(hists[::step])
-    if bad:
-        raise RuntimeError("history replay is not deterministic")
-    for h in hists[:: max(1, len(hists) // 5)][:5]:
+    for h in hists[:: max(1, len(hists) // 4)][:4] + list(seen2.values())[-1:]:
         g, r = build(h)
-        rep.sample({"history": h, "list": list(g), "content": {repr(k): v for k, v in g.content.items()}})
+        rep.sample({"history": h, "list": [repr(x) for x in g], "content": {repr(k): [repr(x) for x in v] for k, v in g.content.items()}})
     rep.extra["depth_completed"] = depth
     rep.extra["universe"] = U
+    rep.extra["universe_nan"] = U2
 
 
 def expand_or_init(hist):
